@@ -103,11 +103,15 @@ def run_cell(ctx, rng, sc, orders, cutoff=None, boundary_only=False):
     for U in ([[1, 0, 0], [2, 1, 0], [1, -3, 1]], [[1, 0, 0], [1, 1, 0], [0, 0, 1]], [[1, 2, 0], [0, 1, 0], [1, 0, 1]], [[0, 1, 0], [0, 0, 1], [1, 0, 0]], [[-1, 0, 0], [0, 1, 0], [0, 0, 1]]):
         U = np.array(U)
         trs.append((f"unimodular{U.tolist()}", U @ L, X @ np.linalg.inv(U), Z, d, f, None))
+    # rotations that permute / flip the Cartesian axes: the zero pattern of the known order-4 finding is covariant under
+    # these, so order-4 results must follow them exactly (normal failure key); generic rotations with order 4 are the known finding
+    for nm_, Q in (("axes-cyclic", np.array([[0.0, 1, 0], [0, 0, 1], [1, 0, 0]])), ("axes-swap-flip", np.array([[0.0, 1, 0], [1, 0, 0], [0, 0, -1.0]])[[0, 1, 2]] * np.array([1.0, 1, 1])[:, None])):
+        trs.append(("signedperm-" + nm_, L @ Q.T, X, Z, d @ Q.T, f @ Q.T, ("rot", Q)))
     for imp in (False, True):
         Q = rand_rotation(rng, imp)
         trs.append(("rotation-" + ("improper" if imp else "proper"), L @ Q.T, X, Z, d @ Q.T, f @ Q.T, ("rot", Q)))
     if ctx.quick:
-        trs = trs[:4] + trs[5:8] + trs[-2:]
+        trs = trs[:4] + trs[5:8] + trs[-4:]
     if boundary_only:
         trs = []
         for fr in (1 / 2, 1 / 3, 1 / 4, 1 / 6, 1 / 8):
